@@ -221,6 +221,7 @@ public:
 	void setSockError(const String& s) { _socketError = s; }
 
 protected:
+	void setHeaders(const Dic<>& headers);
 	void readHeaders();
 	void readBody();
 	String _command;
@@ -263,7 +264,7 @@ public:
 	*/
 	HttpRequest(const String& method, const String& url, const Dic<>& headers) : _method(method), _url(url)
 	{
-		_headers = headers.clone(); init(); // a copy: the request adds headers of its own (Content-Length...), not to the caller's Dic
+		setHeaders(headers); init(); // a copy: the request adds headers of its own (Content-Length...), not to the caller's Dic
 	}
 	/**
 	Constructs an HttpRequest with the given method and body (a String, a ::ByteArray, a Var (sent as JSON) or a File)
@@ -276,7 +277,7 @@ public:
 	template<class T>
 	HttpRequest(const String& method, const String& url, const T& data, const Dic<>& headers) : _method(method), _url(url)
 	{
-		_headers = headers.clone(); put(data); init(); // a copy: put() and Http::request add headers, not to the caller's Dic
+		setHeaders(headers); put(data); init(); // a copy: put() and Http::request add headers, not to the caller's Dic
 	}
 	HttpRequest(Socket& s)
 	{
